@@ -210,11 +210,12 @@ class URLInfo(object):
         info.username = percent_decode(username, encoding=encoding)
         info.password = percent_decode(password, encoding=encoding)
 
-        # The url property writes the user-info back percent-encoded. Reject
-        # text that cannot be encoded (lone surrogates) now with a
-        # UnicodeError instead of failing when the property is read.
-        normalize_username(info.username)
-        normalize_password(info.password)
+        # The url property writes the user-info back percent-encoded in the
+        # encoding it was decoded with. Reject text that cannot be encoded
+        # (lone surrogates) now with a UnicodeError instead of failing when
+        # the property is read.
+        normalize_username(info.username, encoding=encoding)
+        normalize_password(info.password, encoding=encoding)
 
         info.host = host
         info.hostname = hostname
@@ -310,13 +311,16 @@ class URLInfo(object):
                 return self._url
 
             parts = [self.scheme, '://']
+            encoding = self.encoding or 'utf-8'
 
             if self.username:
-                parts.append(normalize_username(self.username))
+                parts.append(normalize_username(
+                    self.username, encoding=encoding))
 
             if self.password:
                 parts.append(':')
-                parts.append(normalize_password(self.password))
+                parts.append(normalize_password(
+                    self.password, encoding=encoding))
 
             if self.username or self.password:
                 parts.append('@')
